@@ -370,6 +370,53 @@ package jsonata
 //@   loop 1 invariant 0 <= i && i <= N && N == rvlen(v) && arrKind(kind(v)) && canif(v) && resultSequence != nil && -1 <= $i0
 //@   loop 1 invariant forall k in [0, len(results)): (valid(results[k]) && canif(results[k]))
 
+// --- C11 / C14: literals, array and object constructors ---------------------------------------------------------------
+// JSON texts denote themselves: string / number / boolean literals evaluate to their value, null to the nil pointer
+// that marshals as null; array constructors drop absent items, keep nested array constructors as units (no
+// flattening of JSON's nested arrays) and flatten other array values one level; object constructors take a literal
+// string key as the member name without evaluating it (so on any input, also an array of items, {"a": v} has the
+// single member a with v evaluated over the whole context), reject non-string keys and duplicate keys.
+//@ func evalString
+//@   props C11 C09
+//@   requires node != nil
+//@   ensures r1 == nil && kind(r0) == 24 && sval(r0) == node.Value && canif(r0)
+//@ func evalNumber
+//@   props C11 C09
+//@   requires node != nil
+//@   ensures r1 == nil && kind(r0) == 14 && same(fval(r0), node.Value) && canif(r0)
+//@ func evalBoolean
+//@   props C11 C09
+//@   requires node != nil
+//@   ensures r1 == nil && kind(r0) == 1 && bval(r0) == node.Value && canif(r0)
+//@ func evalNull
+//@   props C11 C09
+//@   ensures r1 == nil && kind(r0) == 22 && isnil(r0) && canif(r0)
+//@ func evalArray
+//@   props C11 C09
+//@   opaque-arith
+//@   requires node != nil
+//@   preserves node
+//@   ensures [C11:error-propagates] r1 != nil ==> !valid(r0)
+//@   ensures [C11:array-value] r1 == nil ==> (kind(r0) == 23 && canif(r0))
+//@   assigns heap
+//@   atcall[C11:item-evaluated-on-context] eval#0 requires callee_node == item && callee_input == data
+//@   atcall[C11:nested-constructor-not-flattened] arrayify#0 requires !typeis(item, "*jparse.ArrayNode") && callee_v == ret("eval#0", 0)
+//@   atif[C11:absent-dropped] "v == undefined" iff !valid(ret("eval#0", 0))
+//@   loop 0 calls [C11:every-item-evaluated] eval#0
+//@   loop 0 invariant -1 <= $i0
+//@   loop 1 invariant 0 <= i && i <= N && N == rvlen(v) && arrKind(kind(v)) && canif(v) && -1 <= $i0
+
+//@ func groupItemsByKey
+//@   props C14 C11 C09
+//@   opaque-arith
+//@   requires obj != nil && arrKind(kind(items)) && canif(items)
+//@   preserves obj
+//@   ensures [C14:error-kinds] r1 != nil ==> (r0 == nil && (r1 == ret("eval#0", 1) || evalErrIs(r1, ErrIllegalKey) || evalErrIs(r1, ErrDuplicateKey)))
+//@   assigns heap
+//@   atcall[literal-key-is-the-name] eval#0 requires !typeis(keyNode, "*jparse.StringNode") && callee_node == keyNode && callee_input == at(items, j)
+//@   loop 0 invariant -1 <= $i0 && results != nil && local(results) && nItems == rvlen(items)
+//@   loop 1 invariant 0 <= j && j <= nItems && results != nil && local(results) && nItems == rvlen(items) && -1 <= $i0
+
 // --- C02: predicates -------------------------------------------------------------------------------------------
 // Statement: e[p] evaluates p once per item of e's value (a non-array value counting as a one-item list) with that
 // item as context and keeps, in original order, the items for which p is true under boolean casting; when p yields a
